@@ -111,9 +111,11 @@ LEVELS = {
  'C02': {
   'text': 'C02_bond_delegated_in_full: the Delegate messages of Bond/BondForStSei/BondRewards sum to exactly the payment, go only to validators the registry returned and are never empty (uses the C12 conservation theorem); C02_books_le_delegated: after every slashing check booked <= delegated; '
           'C02_bond_keeps_gap: a bond raises books and delegations by the same amount; C02_undelegation_exact: a batch undelegation lowers the books by exactly the sum of its Undelegate messages; C02_convert_keeps_sum. '
+          'C02_reachable (every reachable state): from any state with books <= delegated, after any history of any length without a validator slash (any senders and contracts, failed transactions, time, slashing of unbonding stake, rewards) the hub still books at most what is delegated - proved through the message executor with the queue invariant "books + pending hub undelegations <= delegated + pending hub delegations", the pending staking messages forming a prefix of the queue (hub_books_step: every hub message; BookInv.step: every message of every contract and of the staking module). '
+          'C02_direct_call_recognises: from any state, however stale after slashing, a successful Bond / BondForStSei / BondRewards / CheckSlashing transaction ends with books <= delegated. '
           'The liquid-balance clause (funds in = delegate messages out) follows from the first theorem on the model chain and is compared on every implementation transaction.',
-  'note': 'Trusted: Lean kernel; hub and registry models; A-CHAIN-3 (Delegate/Undelegate move exactly the stated amounts). The invariant over whole histories (books <= delegations at every point) is the conjunction of these per-operation theorems; its induction over operation lists is not a separate theorem.',
-  'technique': 'Lean 4 per-operation conservation theorems on top of C12; books-vs-delegations oracle on every implementation transaction',
+  'note': 'Trusted: Lean kernel; hub, registry and chain models and the executor Sys.run; A-CHAIN-3 (Delegate/Undelegate/Redelegate move exactly the stated amounts). Recognition after a slash is stated for direct hub calls; for Unbond/Convert (which reach the hub through the token) it is the step theorem C02_books_le_delegated plus the oracle.',
+  'technique': 'Lean 4 reachable-state theorem over the composed system (queue invariant through the message executor) on top of C12; books-vs-delegations oracle on every implementation transaction',
  },
  'C07': {
   'text': 'Invariant ClaimInv proved in Lean: for the open batch the sum over all users of recorded claims equals CurrentBatch.requested (per token); for every closed unreleased batch it equals the history amounts; for released batches it only falls; nothing is recorded for future batches. '
@@ -127,9 +129,10 @@ LEVELS = {
  'C08': {
   'text': 'C08_undelegation_only_after_epoch: an unbond (either token) undelegates only when now - last_unbonded_time > epoch_period, otherwise the history is untouched; the new entry carries the current time; C08_consecutive_written_once: the slot written is the open batch id, provably empty before, and the next id opens (uses the C07 invariant); '
           'C08_release_respects_time_lock: a withdrawal flips released only for entries with time + unbonding_period <= now, never rewrites a released entry and never changes time/amounts/applied rates of any entry; C08_paid_batches_are_released: entries paid and removed are exactly the caller\'s entries on released batches; '
-          'the undelegated amount equals the history entry (C03_batch_undelegation, C03_undelegate_messages_sum). Boundary seconds are values of `now` (quantified).',
-  'note': 'Trusted: Lean kernel; hub model; E2 (chain unbonding time = hub unbonding_period; matured coins credited before later transactions). Other hub handlers do not write history (by their characterisations: only processUndelegations and processWithdrawRate touch `hist`).',
-  'technique': 'Lean 4 theorems on the batch lifecycle; AllHistory monotonicity oracle between all implementation steps',
+          'the undelegated amount equals the history entry (C03_batch_undelegation, C03_undelegate_messages_sum). Boundary seconds are values of `now` (quantified). '
+          'C08_hub_step_forward / C08_forward_only (every history): between any two points of any history of the composed system the later hub state continues the earlier one\'s batch history - batch ids never go back, no entry\'s time, amounts or applied rates are ever rewritten, nothing released is ever touched again.',
+  'note': 'Trusted: Lean kernel; hub model and the executor Sys.run; E2 (chain unbonding time = hub unbonding_period; matured coins credited before later transactions). The time-lock clause is a step theorem (it depends on the owner-tunable unbonding_period, E3).',
+  'technique': 'Lean 4 step theorems plus a forward-only theorem over every history of the composed system; AllHistory monotonicity oracle between all implementation steps',
  },
  'C01': {
   'text': 'C01_pays_recorded_share (one bank transfer of exactly the sum over the caller\'s released entries, each valued at the batch\'s final rates; prev_hub_balance = balance - payout; zero share fails), C01_paid_once (no released claim is left for the caller: an immediate second withdrawal finds nothing), '
